@@ -72,7 +72,10 @@ def main():
             "level_note": note,
             "technique": tech,
         })
-    na = [{"property_id": k, "reason": v} for k, v in sorted({**NOT_APPLICABLE, **PENDING}.items()) if k not in CHECKS]
+    all_ids = [json.loads(l)["id"] for l in open(os.path.join(ROOT, "properties.jsonl")) if l.strip()]
+    pending = {i: "check not built yet (planned, see DESIGN.md section 5); not claimed until it is" for i in all_ids
+               if i not in CHECKS and i not in NOT_APPLICABLE}
+    na = [{"property_id": k, "reason": v} for k, v in sorted({**NOT_APPLICABLE, **pending}.items()) if k not in CHECKS]
     m = {
         "version": 1,
         "setup_cmd": "./setup.sh",
